@@ -124,7 +124,7 @@ MATCHERS = {}
 def run(ctx):
     try:
         states = {"ok", "bad", "missing", "null", "ambig", "casefold", "casefold2", "numstr", "numstr_out", "numbad", "numover",
-                  "numfloat", "numbig", "dup_numstr", "dup_casefold", "dup_bad_last", "casefold3", "casefold1"}
+                  "numfloat", "numbig", "dup_numstr", "dup_casefold", "dup_bad_last", "casefold3", "casefold1", "casefold_pad", "casefold_padlow"}
         res = ctx.model("SchemaDocs", constants={"MaxFields": 3 if ctx.thorough else 2, "StateSet": states, "Spell": False},
                         invariants=["EmitCase"], required_actions=["Fill"])
         cases = list(res.payload_lines())
